@@ -26,6 +26,13 @@ SCHEMAS = {
                      pageSize=4, uniq=0, autoSelect=1, maxCodeLength=3, autoClear="max_length"),
     "vs_multi": dict(procs=["speller", "selector", "navigator", "fluid_editor"], alphabet="abcd", delimiters="'",
                      pageSize=5, uniq=1, selectKeys="jkl;m", pageDownCycle=1),
+    # speller options the four above leave at their defaults (tools/model_coverage.py showed the code behind them unreached):
+    # auto_clear: auto with auto_select and no code-length bound; initials / finals, space as a delimiter handled by the
+    # speller (use_space), auto_clear: manual with a code-length bound
+    "vs_auto": dict(procs=["speller", "selector", "navigator", "express_editor"], alphabet="abc", delimiters="'",
+                    pageSize=3, uniq=1, autoSelect=0, autoClear="auto"),   # autoSelect=1 once AutoSelectPreviousMatch is in the model
+    "vs_initials": dict(procs=["speller", "selector", "navigator", "fluid_editor"], alphabet="abcd", initials="abc", finals="d",
+                        delimiters=" '", pageSize=4, uniq=0, useSpace=1, maxCodeLength=3, autoClear="manual"),
 }
 
 
@@ -108,6 +115,37 @@ def table_lines(rows):
 
 
 # ------------------------------------------------------------------ op generation
+def gen_burst(rng, s):
+    """a directed burst: type a few letters, select (so that the composition holds selected / confirmed segments and, in
+    schemas without auto-commit, a trailing empty segment), then edit right away — the states in which BackSpace reopens a
+    segment or a selection, Escape / Left / Home act on a finished composition, and the caret sits inside a selected part.
+    (Measured with tools/model_coverage.py: Context::ReopenPreviousSegment's success path, Segment::Reopen away from the
+    original end and similar lines were never reached by the uniform op mix.)"""
+    alpha, delim, sel = s["alphabet"], s.get("delimiters", ""), s.get("selectKeys", "")
+    out = ["key %d 0" % ord(rng.choice(alpha)) for _ in range(rng.choice([1, 2, 2, 3, 4]))]
+    if delim and rng.random() < 0.25:
+        out.insert(rng.randrange(1, len(out) + 1), "key %d 0" % ord(rng.choice(delim)))
+    if rng.random() < 0.25:
+        out.append(rng.choice(["key %d 0" % XK["Left"], "caret %d" % rng.randrange(4), "key %d 0" % XK["Home"]]))
+
+    def pick():
+        ks = list(sel) if sel else list("123")
+        return rng.choice(["select %d" % rng.choice([0, 0, 1, 2]), "select_page %d" % rng.choice([0, 0, 1]), "key %d 0" % XK["space"],
+                           "key %d 0" % ord(rng.choice(ks[:3]))])
+    out.append(pick())
+    if rng.random() < 0.45:
+        out.append(pick())
+    follow = (["key %d 0" % XK["BackSpace"]] * 5 +
+              ["key %d %d" % (XK["BackSpace"], CONTROL), "key %d %d" % (XK["BackSpace"], SHIFT), "key %d 0" % XK["Left"],
+               "key %d 0" % XK["Left"], "key %d %d" % (XK["Left"], CONTROL), "key %d 0" % XK["Home"], "key %d 0" % XK["Escape"],
+               "key %d 0" % XK["Delete"], "key %d 0" % XK["Right"], "key %d 0" % XK["End"], "caret %d" % rng.randrange(4),
+               "key %d 0" % ord(rng.choice(alpha)), "key %d 0" % XK["space"], "page +", "highlight 1", "key %d 0" % XK["Return"],
+               "delete 0", "option _linear 1"])
+    for _ in range(rng.choice([1, 2, 3, 4])):
+        out.append(rng.choice(follow))
+    return out
+
+
 def gen_history(rng, sid, s, n, profile="mixed"):
     """one session history on schema sid; profile selects the op mix."""
     alpha = s["alphabet"]
@@ -129,7 +167,9 @@ def gen_history(rng, sid, s, n, profile="mixed"):
             if ops[-1] == "read_commit" and rng.random() < 0.5:
                 ops.append("read_commit")
             continue
-        if r < 0.34:
+        if r < 0.045:
+            ops += gen_burst(rng, s)
+        elif r < 0.34:
             ops.append("key %d 0" % ord(rng.choice(alpha)))
         elif r < 0.38 and delim:
             ops.append("key %d 0" % ord(rng.choice(delim)))
@@ -280,6 +320,27 @@ def wellformed(o):
             return "highlight-range"
         if num == 0:
             return "empty-page"
+    return cand_ends(o)
+
+
+def cand_ends(o):
+    """the assumption C01's geometric theorems make of the translators (TranslateGeo: a candidate ends after its
+    segment's start) and the bound Composition::GetPreedit / GetCommitText rely on, as far as an observation shows them:
+    every candidate end position the harness prints for the current page is > 0 and <= the input length.
+    Returns the failing clause or None.  (-1 = the harness could not read the end: not judged here.)"""
+    m = o.get("menu")
+    if "nocontext" in o or m in (None, "~") or ",[" not in m:
+        return None
+    n = len(unhex(o.get("input")))
+    for ent in m[m.index(",[") + 2:].rstrip("]").split("|"):
+        if not ent:
+            continue
+        try:
+            e = int(ent.rsplit(":", 1)[1])
+        except (IndexError, ValueError):
+            continue
+        if e >= 0 and not (0 < e <= n):
+            return "cand-end-range"
     return None
 
 
@@ -427,6 +488,124 @@ def session_check(c, pid, monitor, histories, rows_for, exe, ws, what_prop, repo
     return stats
 
 
+# ------------------------------------------------------------------ stock components: monitors only (no model)
+STOCK_PUNCT = "/\\|~`'\"<>[]{}$^*%@#&=+-_:;!?.,"
+
+
+def gen_stock_history(rng, n):
+    """keys and calls for the stock-like schema (luna_pinyin's component list over tiny dictionaries): pinyin syllables,
+    one punctuation key pressed k times in a row (k up to 9: the alternatives of a list-valued punctuation wrap around),
+    confirmation / editing / paging keys, ascii and shape toggles, selection and paging through the API, reverse lookup"""
+    syl = ["ni", "hao", "ma", "a", "ai", "an", "zhong", "guo", "xi", "n", "h", "zh", "x"]
+    ops = []
+    while len(ops) < n:
+        r = rng.random()
+        if r < 0.30:
+            for ch in rng.choice(syl):
+                ops.append("key %d 0" % ord(ch))
+        elif r < 0.45:
+            ch = rng.choice(STOCK_PUNCT)
+            for _ in range(rng.choice([1, 2, 3, 4, 5, 6, 8, 9])):
+                ops.append("key %d 0" % ord(ch))
+            ops.append(rng.choice(["key %d 0" % XK["space"], "key %d 0" % ord(rng.choice("na")), "key %d 0" % XK["Escape"], "read_commit"]))
+        elif r < 0.60:
+            ops.append("key %d 0" % rng.choice([XK["space"], XK["Return"], XK["BackSpace"], XK["BackSpace"], XK["Escape"], XK["Down"], XK["Up"],
+                                                XK["Next"], XK["Prior"], XK["Left"], XK["Right"], XK["Home"], XK["End"], XK["Delete"]]))
+        elif r < 0.66:
+            ops.append("key %d 0" % ord(rng.choice("1234567890")))
+        elif r < 0.71:
+            k = rng.choice([0xffe1, 0xffe2, 0xffe3, 0xffe5])      # Shift_L, Shift_R, Control_L, Caps_Lock taps
+            ops += ["key %d 0" % k, "key %d %d" % (k, RELEASE)]
+        elif r < 0.76:
+            ops.append("option %s %d" % (rng.choice(["ascii_mode", "full_shape", "ascii_punct", "zh_simp", "_linear"]), rng.randrange(2)))
+        elif r < 0.82:
+            ops.append(rng.choice(["select %d" % rng.choice([0, 1, 2, 5, 43]), "select_page %d" % rng.randrange(5),
+                                   "highlight %d" % rng.choice([0, 1, 3, 7]), "highlight_page %d" % rng.randrange(5),
+                                   "delete %d" % rng.randrange(3)]))
+        elif r < 0.87:
+            ops.append("page %s" % rng.choice("+-"))
+        elif r < 0.91:
+            ops.append("caret %d" % rng.choice([0, 1, 2, 3, 5, 99]))
+        elif r < 0.94:
+            ops += ["key 96 0"] + ["key %d 0" % ord(ch) for ch in rng.choice(["a", "ab", "dd", "e"])]     # ` = reverse lookup prefix
+        elif r < 0.97:
+            ops.append(rng.choice(["commit", "clear"]))
+        else:
+            ops.append("read_commit")
+    return ops
+
+
+def eval_impl(c, exe, ws, sid, ops, monitor, tag="st"):
+    script, index = make_script([], [(sid, ops)])
+    p = os.path.join(c.work, "%s.script" % tag)
+    with open(p, "w") as f:
+        f.write(script)
+    rc, out = run_impl(exe, ws, p)
+    impl = [l for l in out.splitlines() if l.startswith("ret=") or l.startswith("ids ") or l == "bad-op"]
+    state, first = {}, None
+    for i, (h, j, op) in enumerate(index):
+        if i >= len(impl):
+            break
+        if j >= 0:
+            why = monitor(state, op, parse_obs(impl[i]))
+            if why:
+                first = (j, op, why, impl[i])
+                break
+    return {"rc": rc, "first_viol": first, "log": out[-2500:] if rc else "", "n": len(impl)}
+
+
+def stock_monitor_check(c, pid, monitor, histories, exe, ws, what_prop, sid="vs_full"):
+    """histories on the stock-component schema, implementation only: every observation goes through `monitor`."""
+    st = {"stock_histories": 0, "stock_ops": 0, "stock_composing": 0, "stock_menus": 0, "stock_violations": 0, "stock_crashes": 0,
+          "stock_op_kinds": {}}
+    for k, ops in enumerate(histories):
+        script, index = make_script([], [(sid, ops)])
+        p = os.path.join(c.work, "stock%d.script" % k)
+        with open(p, "w") as f:
+            f.write(script)
+        rc, out = run_impl(exe, ws, p)
+        impl = [l for l in out.splitlines() if l.startswith("ret=") or l.startswith("ids ") or l == "bad-op"]
+        st["stock_histories"] += 1
+        state, bad = {}, None
+        for i, (h, j, op) in enumerate(index):
+            if i >= len(impl):
+                break
+            if j < 0:
+                continue
+            o = parse_obs(impl[i])
+            st["stock_ops"] += 1
+            kd = op_kind(op)
+            st["stock_op_kinds"][kd] = st["stock_op_kinds"].get(kd, 0) + 1
+            st["stock_composing"] += o.get("composing") == "1"
+            st["stock_menus"] += o.get("menu") not in (None, "~")
+            why = monitor(state, op, o)
+            if why and bad is None:
+                bad = (j, why)
+        if rc != 0:
+            st["stock_crashes"] += 1
+            if pid in CRASH_REPORTERS:
+                cut = list(ops)[:len([1 for (h, j, op) in index[:len(impl) + 1] if j >= 0])]
+                small = ddmin(cut, lambda t: eval_impl(c, exe, ws, sid, t, monitor)["rc"] != 0, budget=40)
+                r = eval_impl(c, exe, ws, sid, small, monitor)
+                m = re.search(r"#\d+ \S+ in (.+?) /\S*?/src/([\w/\.]+):(\d+)", r["log"] or out)
+                frame = "%s@%s" % (m.group(1).split("(")[0].replace(" ", ""), m.group(2)) if m else "?"
+                c.report("%s:crash:%s" % (pid, frame), "API history crashes / trips a sanitizer in %s on %s" % (frame, sid),
+                         {"kind": "impl-violation", "schema": sid, "workspace": "stock-like (c01_common.make_full_workspace)", "table": [],
+                          "ops": small, "log": (r["log"] or out)[-2500:]})
+        if bad:
+            st["stock_violations"] += 1
+            j, clause = bad
+            cut = list(ops)[:j + 1]
+            small = ddmin(cut, lambda t: (lambda r: r["first_viol"] is not None and r["first_viol"][2] == clause)(
+                eval_impl(c, exe, ws, sid, t, monitor)))
+            r = eval_impl(c, exe, ws, sid, small, monitor)
+            c.report("%s:stock:%s:%s" % (pid, op_kind(small[-1]), clause),
+                     "%s violated (%s) after %d calls on the stock-component schema" % (what_prop, clause, len(small)),
+                     {"kind": "impl-violation", "schema": sid, "workspace": "stock-like (c01_common.make_full_workspace)", "table": [],
+                      "ops": small, "observation": r["first_viol"][3] if r["first_viol"] else None, "clause": clause})
+    return st
+
+
 def report_crash(c, pid, exe, ws, rows, sid, ops, out, monitor):
     def crashes(t):
         return eval_history(c, exe, ws, rows, sid, t, monitor, "cr")["rc"] != 0
@@ -446,6 +625,12 @@ def replay_history(c, r, monitor):
     if "ops" not in r:
         print("replay: this file names a broken obligation, no concrete history:", r.get("what"))
         return 1
+    if r.get("schema") == "vs_full":
+        from checks import c01_common as c1
+        fws = c1.make_full_workspace(os.path.join(c.work, "fws"), user_dict=False)
+        res = eval_impl(c, exe, fws, "vs_full", r["ops"], monitor, "rp")
+        print("rc=%d first_viol=%s" % (res["rc"], res["first_viol"]))
+        return 1 if (res["rc"] != 0 or res["first_viol"]) else 0
     rows = [tuple(x) for x in r["table"]]
     res = eval_history(c, exe, ws, rows, r["schema"], r["ops"], monitor, "rp")
     for l in res["impl"][-3:]:
